@@ -201,6 +201,8 @@ class Ctx:
         self.translator_inputs: dict[str, str] = {}
         self.not_discharged: list[str] = []
         self.out_of_scope: list = []
+        self.changed: list[str] = []      # T-snap: functions whose text differs from the transcription basis
+        self.deep = False                 # set when the source changed: generators may deepen their search
         self._replay_n = 0
 
     # -- obligations (theorems, ties) --
@@ -223,6 +225,16 @@ class Ctx:
         self.obligation("static development builds (all hand-written theorems)", ok, out if not ok else "", "theorem")
         if not ok:
             self.broken_machinery.append("static Coq development failed to build:\n" + out[-3000:])
+        elif not getattr(self, "_snap_done", False):
+            # T-snap: has the text the models were transcribed from changed?  (sets self.changed / self.deep)
+            self._snap_done = True
+            from translate import snap
+            try:
+                self.changed = snap.tie(self)
+            except Exception as e:      # a source file that no longer parses etc.: the tie is broken, not the machinery
+                self.changed = ["?"]
+                self.deep = True
+                self.obligation("T-snap: anchored functions could be hashed", False, repr(e), "tie")
         return ok
 
     # -- cases --
